@@ -707,7 +707,9 @@ func (wd *world) checkModel() {
 		if relax&relaxForeignExpiry != 0 && len(wd.s.Servers) < 2 {
 			continue
 		}
-		if ok, _ := wd.runModel(relax).run(); !ok {
+		rm := wd.runModel(relax)
+		rm.budget = 100000
+		if ok, _ := rm.run(); !ok {
 			continue
 		}
 		wd.explainedBy = relax
